@@ -10,6 +10,8 @@ THEOREMS = [
     "C12_print_parse: forall d, in_range d -> std_from_str (display d) = Some d /\\ doc_datetime (display d) = Some d",
     "C12_closed: a parsed date-time is in_range",
     "C12_truncation: fraction digits beyond 9 are dropped",
+    "C12_exact: forall s d, std_from_str s = Some d <-> date_time_tok s d (the whole string is a date-time token of the specification's grammar, "
+    "RFC 3339 ranges included, denoting d); C12_rejects_the_rest: std_from_str s = None <-> no d with date_time_tok s d",
 ]
 RULE = ("seed literals of all four kinds x single substitution/insertion/deletion over the date-time alphabet, "
         "truncation at every byte, every field at and beyond its edges, in-range Datetime grid printed and re-read; "
